@@ -73,7 +73,8 @@ CLAIMS = {
             'Machine-code semantics outside the model: the deciding evidence for emission is differential execution, i.e. exploration.'),
     'C04': ('proof', 'PARTIAL. Theorem C04_alu_arms: for each of the 50 ALU opcodes and all operand values the Cranelift IR built by translate_program (regenerated into Coq '
             'on every run; value semantics of the IR in ClirSem.v, traps on zero divisors modelled) defines the destination register to exactly the ISA value, and never '
-            'traps. Control flow, memory arms (their bounds check is C11), helper calls and Cranelift code generation are not modelled: compiled code is executed '
+            'traps; theorem C04_jump_conditions: for each of the 44 conditional jumps (the shared arm partially evaluated per opcode) the value handed to brif is '
+            'non-zero iff the ISA condition holds. Block structure, memory arms (their bounds check is C11), helper calls and Cranelift code generation are not modelled: compiled code is executed '
             'against the interpreter (= ISA by C01) on the same corpus as C03; programs with local calls must be refused (ERR) by compilation. This search found that '
             'every 64-bit conditional jump was compiled as its 32-bit variant (fixed: 742bb11).',
             'IR semantics hand-modelled; IR -> machine code trusted; non-ALU arms by differential execution.'),
